@@ -53,6 +53,7 @@ class Sched:
         self.main = _real_current()
         self._reg(self.main, 'main')
         self.log = []                # (virtual time, thread name, text)
+        self.locklog = []            # (thread, 'want'|'got'|'rel', lock creation site)
 
     # ---- bookkeeping
     def _reg(self, t, base):
@@ -242,6 +243,15 @@ class DLock:
     def __init__(self):
         self.l = False
         self.owner = None
+        # lock identity for lock-order analysis: the module that created it
+        import sys as _sys
+        f = _sys._getframe(1)
+        self.site = '%s:%d' % (f.f_globals.get('__name__', '?'), f.f_lineno)
+        self.held_by = None
+
+    def _note(self, op):
+        if S is not None:
+            S.locklog.append((S.name(), op, self.site))
 
     def acquire(self, blocking=True, timeout=-1):
         if not blocking:
@@ -250,10 +260,12 @@ class DLock:
             self.l = True
             self.owner = S.name()
             return True
+        self._note('want')
         ok = S.block(lambda: not self.l, None if timeout in (-1, None) else timeout, what='Lock.acquire')
         if ok:
             self.l = True
             self.owner = S.name()
+            self._note('got')
         return ok
 
     def release(self):
@@ -261,6 +273,7 @@ class DLock:
             raise RuntimeError('release unlocked lock')
         self.l = False
         self.owner = None
+        self._note('rel')
 
     def locked(self):
         return self.l
